@@ -106,7 +106,7 @@ func ruleOrderingGoroutineLatch(c *Check, p *Program, rule string) {
 		return
 	}
 	found := false
-	for _, fn := range withAnon(iw)[1:] {
+	for _, fn := range orderingFns(iw) {
 		for _, ci := range callsIn(fn) {
 			if !calleeIs(ci, pkgStream, "FrameDataBlock.Write") {
 				continue
@@ -149,6 +149,36 @@ func ruleBlocksCloseLatch(c *Check, p *Program, rule string) {
 	if fn == nil {
 		return
 	}
+	isClear := func(in ssa.Instruction) bool {
+		st, isSt := in.(*ssa.Store)
+		return isSt && lastField(st.Addr) == "Blocks.err" && isNilConst(st.Val)
+	}
+	// latchValue: v is the latch as loaded from Blocks.err, possibly through a module
+	// helper all of whose returns yield the latch ("take the error" helpers)
+	var latchValue func(v ssa.Value, depth int) bool
+	latchValue = func(v ssa.Value, depth int) bool {
+		if loadField(v) == "Blocks.err" {
+			return true
+		}
+		call, isC := v.(*ssa.Call)
+		if !isC || depth <= 0 {
+			return false
+		}
+		f := staticCallee(call)
+		if !inModule(f) {
+			return false
+		}
+		all, any := true, false
+		allInstrs(f, func(in ssa.Instruction) {
+			if r, isR := in.(*ssa.Return); isR && len(r.Results) == 1 {
+				any = true
+				if !latchValue(r.Results[0], depth-1) {
+					all = false
+				}
+			}
+		})
+		return all && any
+	}
 	n := 0
 	ok := true
 	var why []string
@@ -158,19 +188,15 @@ func ruleBlocksCloseLatch(c *Check, p *Program, rule string) {
 			return
 		}
 		n++
-		if loadField(r.Results[0]) != "Blocks.err" {
+		if !latchValue(r.Results[0], 2) {
 			ok = false
 			why = append(why, "return at "+p.InstrPos(in)+" yields "+shortVal(r.Results[0])+" instead of the latched error")
 		}
 	})
-	// every path to a return passes a store of nil into Blocks.err
-	isClear := func(in ssa.Instruction) bool {
-		st, isSt := in.(*ssa.Store)
-		return isSt && lastField(st.Addr) == "Blocks.err" && isNilConst(st.Val)
-	}
-	if r, _ := reachAvoid(fn, nil, isReturn, isClear); r {
+	// every path to a return passes a store of nil into Blocks.err (directly or in a helper)
+	if cleared, bad := mustOnAllPaths(p, fn, isClear, false, 2); !cleared {
 		ok = false
-		why = append(why, "a return is reachable without clearing Blocks.err: a stale error (or io.EOF of the previous stream) survives Close/Reset")
+		why = append(why, "the return at "+bad+" is reachable without clearing Blocks.err: a stale error (or io.EOF of the previous stream) survives Close/Reset")
 	}
 	c.Cond(ok && n > 0, rule, "Blocks.close#returns-and-clears-latch", p.Pos(fn.Pos()), "Blocks.close returns the latched error and clears the latch on every path", "all returns yield b.err; every path stores nil into it", strings.Join(why, "; "))
 }
